@@ -909,6 +909,16 @@ class HelperInliner:
                             break
                     if done:
                         continue
+                if isinstance(st, ast.Raise) and isinstance(st.exc, ast.Call) and self.resolve(st.exc, fn, cls, qual) is not None \
+                        and not any(isinstance(n, (ast.Yield, ast.YieldFrom)) for n in ast.walk(self.resolve(st.exc, fn, cls, qual)[0])):
+                    # raise helper(...) [from e]  ->  tmp = helper(...); raise tmp [from e]
+                    self.counter += 1
+                    tmp = f"__c{self.counter}"
+                    pre_ = ast.copy_location(ast.Assign(targets=[ast.Name(id=tmp, ctx=ast.Store())], value=st.exc), st)
+                    st.exc = ast.copy_location(ast.Name(id=tmp, ctx=ast.Load()), st.exc)
+                    ast.fix_missing_locations(pre_)
+                    block[i:i + 1] = [pre_, st]
+                    continue
                 if isinstance(st, ast.If) and not done:
                     lc = _leading_call(st.test)
                     r0 = self.resolve(lc, fn, cls, qual) if lc is not None else None
@@ -2280,6 +2290,7 @@ def normalize(fn: ast.FunctionDef, cls: ast.ClassDef | None, qual: str, inliner:
             new.body = [_Subst(consts).visit(st) for st in new.body]
     new.body = _canon_body(new)
     if inliner is not None:
+        new = lower(new, tuples=True, ifexp=False)  # (leading walrus of an if / while: its call becomes a statement the inliner can expand)
         new = inliner.inline(new, cls, qual)
         # nested helpers of later origin that were inlined at every use are dropped
         for st in list(new.body):
